@@ -10,10 +10,13 @@ PROP = "C16"
 
 USE_CACHE = ["omitted", "true", "false"]
 STRUCT = ["omitted", "true", "false"]
-EXTS = ["omitted", "rs", "rs+x", "x"]      # (an explicit empty list is an error exit, below)
+EXTS = ["omitted", "rs", "rs+x", "x", "rs+x+rs"]      # the last one lists an extension twice: same meaning as rs+x      # (an explicit empty list is an error exit, below)
 LOCK = ["absent", "valid_ahead", "corrupt", "empty", "out_of_range", "negative", "float", "conflict_markers", "line_plus_junk", "nested_key",
         # a scratch copy of the lock left behind by a killed run is not the lock: same expectations as without it
-        "absent+stale_scratch", "valid_ahead+stale_scratch"]
+        "absent+stale_scratch", "valid_ahead+stale_scratch",
+        # a valid lock reached through a symbolic link; locks that are not text at all (UTF-16 as a PowerShell redirect writes it,
+        # a Latin-1 byte, binary junk): unparsable, hence ignored
+        "valid_ahead_via_symlink", "utf16", "latin1_byte", "binary"]
 MODE = ["check", "edit"]
 TREE = ["missing", "none_missing"]
 LOCKVAL = 1000
@@ -40,7 +43,11 @@ LOCK_TEXT = {"absent": None, "valid_ahead": core.lock_text(LOCKVAL), "corrupt": 
              "conflict_markers": core.LOCK_HEADER + "<<<<<<< HEAD\nnext_reference_id: 2\n=======\nnext_reference_id: 2000\n>>>>>>> feature\n",
              "line_plus_junk": core.LOCK_HEADER + "next_reference_id: 2\n}}} not yaml {{{ : :\n\t- [\n",
              "nested_key": core.LOCK_HEADER + "cache:\n  next_reference_id: 2\n",
-             "absent+stale_scratch": None, "valid_ahead+stale_scratch": core.lock_text(LOCKVAL)}
+             "absent+stale_scratch": None, "valid_ahead+stale_scratch": core.lock_text(LOCKVAL),
+             "valid_ahead_via_symlink": core.lock_text(LOCKVAL),
+             "utf16": b"\xff\xfe" + core.lock_text(2).encode("utf-16-le"),
+             "latin1_byte": (core.LOCK_HEADER + "# gr\xfc\xdfe\nnext_reference_id: 2\n").encode("latin-1"),
+             "binary": bytes(range(256)) * 3}
 
 
 def expected(p):
@@ -48,7 +55,7 @@ def expected(p):
     LOCKVAL = p[6] if len(p) > 6 else 1000
     cache = uc != "false"
     structured = st == "true"
-    exts = {"omitted": ["rs"], "rs": ["rs"], "rs+x": ["rs", "x"], "x": ["x"]}[ex]
+    exts = {"omitted": ["rs"], "rs": ["rs"], "rs+x": ["rs", "x"], "x": ["x"], "rs+x+rs": ["rs", "x"]}[ex]
     files = FILES_MISSING if tree == "missing" else FILES_NONE
     scope = sorted(r for r in files if r.rsplit(".", 1)[-1] in exts)
     nmiss = 0
@@ -71,7 +78,7 @@ def config_text(p, source_dir="src"):
     return core.make_config(source_dir=source_dir,
                             use_cache=None if uc == "omitted" else (uc == "true"),
                             structured=None if st == "omitted" else (st == "true"),
-                            extensions=None if ex == "omitted" else {"rs": ["rs"], "rs+x": ["rs", "x"], "x": ["x"]}[ex])
+                            extensions=None if ex == "omitted" else {"rs": ["rs"], "rs+x": ["rs", "x"], "x": ["x"], "rs+x+rs": ["rs", "x", "rs"]}[ex])
 
 
 def run_point(built, p, cfgform="absolute"):
@@ -85,7 +92,14 @@ def run_point(built, p, cfgform="absolute"):
         cfg = box.write("Breadlog.yaml", config_text(p))
         lockp = os.path.join(box.proj, "Breadlog.lock")
         if LOCK_TEXT[lk] is not None:
-            open(lockp, "w").write(core.lock_text(LOCKVAL) if lk.startswith("valid_ahead") else LOCK_TEXT[lk])
+            text = core.lock_text(LOCKVAL) if lk.startswith("valid_ahead") else LOCK_TEXT[lk]
+            target = lockp
+            if lk == "valid_ahead_via_symlink":
+                target = os.path.join(box.proj, "shared", "workspace.lock")
+                os.makedirs(os.path.dirname(target))
+                os.symlink(os.path.join("shared", "workspace.lock"), lockp)
+            with open(target, "wb") as f:
+                f.write(text if isinstance(text, bytes) else text.encode())
         if lk.endswith("+stale_scratch"):
             open(lockp + ".tmp", "w").write([core.lock_text(2), core.lock_text(5000), core.LOCK_HEADER, ""][hash(tuple(p)) % 4])
         before = core.snapshot(box.root)
@@ -115,7 +129,9 @@ def run_point(built, p, cfgform="absolute"):
     src_changed = sorted(c for c in changed if c.startswith("proj/src/"))
     other_changed = sorted(c for c in changed if not c.startswith("proj/src/") and c != "proj/Breadlog.lock"
                            # replacing the lock goes through its scratch name: an edit run with the cache on may consume a stale one
-                           and not (c == "proj/Breadlog.lock.tmp" and exp["cache"] and mode == "edit"))
+                           and not (c == "proj/Breadlog.lock.tmp" and exp["cache"] and mode == "edit")
+                           # a lock that is a symbolic link may be updated through the link or replaced by a regular file
+                           and not (c == "proj/shared/workspace.lock" and exp["cache"] and mode == "edit"))
     if other_changed:
         v.append(("unrelated-file-changed", {"paths": other_changed}))
     if not exp["cache"]:
@@ -207,6 +223,7 @@ ERRORS = ["missing_config", "invalid_yaml", "yaml_wrong_type", "missing_source_d
 def error_work(job):
     built, kind, mode = job[:3]
     with_lock = job[3] if len(job) > 3 else False
+    cwd_trap = job[4] if len(job) > 4 else False
     res = {"evaluations": 1, "nontrivial": [], "violations": [], "samples": [], "inconclusive": {}, "counters": {}}
     with core.Box(tag="c16e") as box:
         for rel, data in FILES_MISSING.items():
@@ -260,23 +277,34 @@ def error_work(job):
         elif kind == "empty_source_dir":
             os.makedirs(os.path.join(box.proj, "emptysrc"))
             box.write("Breadlog.yaml", core.make_config(source_dir="emptysrc"))
+        cwd = None
+        if cwd_trap:
+            # invoked from an unrelated directory that happens to hold everything the broken configuration lacks: a valid
+            # Breadlog.yaml, and directories called src, nowhere, emptysrc with source files in them - none of it may be used
+            cwd = os.path.join(box.root, "invoked-from-here")
+            for d in ("src", "nowhere", "emptysrc", "src/a.rs"):
+                os.makedirs(os.path.join(cwd, d), exist_ok=True)
+                with open(os.path.join(cwd, d, "lookalike.rs"), "wb") as f:
+                    f.write(b'fn t() {\n    info!("look-alike in the invocation directory");\n}\n')
+            with open(os.path.join(cwd, "Breadlog.yaml"), "w") as f:
+                f.write(core.make_config())
         before = core.snapshot(box.root)
-        r = core.run_breadlog(built, box, cfgp, check=(mode == "check"))
+        r = core.run_breadlog(built, box, cfgp, check=(mode == "check"), cwd=cwd)
         after = core.snapshot(box.root)
     if r.panicked():
         res["inconclusive"]["run-crashed (C17's business)"] = 1
         return res
-    res["nontrivial"].append("error|%s|%s|lock=%s" % (kind, mode, with_lock))
+    res["nontrivial"].append("error|%s|%s|lock=%s|cwdtrap=%s" % (kind, mode, with_lock, cwd_trap))
     kind0 = kind
-    kind = kind + ("+lock" if with_lock else "")
+    kind = kind + ("+lock" if with_lock else "") + ("+lookalikes-in-cwd" if cwd_trap else "")
     res["counters"]["error_exits"] = 1
     diff = core.snap_diff(before, after, meta=False)
     if r.rc == 0 or r.sig:
         res["violations"].append({"signature": "C16.error-exit-status|%s|%s" % (kind, mode), "detail": {"end": r.ended(), "stdout": r.out[-300:]},
-                                  "case": {"error": kind0, "mode": mode, "with_lock": with_lock}})
+                                  "case": {"error": kind0, "mode": mode, "with_lock": with_lock, "cwd_trap": cwd_trap}})
     if diff:
         res["violations"].append({"signature": "C16.error-run-changed-files|%s|%s" % (kind, mode), "detail": {"diff": diff},
-                                  "case": {"error": kind0, "mode": mode, "with_lock": with_lock}})
+                                  "case": {"error": kind0, "mode": mode, "with_lock": with_lock, "cwd_trap": cwd_trap}})
     return res
 
 
@@ -297,7 +325,7 @@ def main(tier):
                 jobs.append((built, p, form))
     for res in frame.pmap(work, jobs, chunksize=8):
         ck.absorb(res)
-    for res in frame.pmap(error_work, [(built, k, m, wl) for k in ERRORS for m in MODE for wl in (False, True)]):
+    for res in frame.pmap(error_work, [(built, k, m, wl, ct) for k in ERRORS for m in MODE for wl in (False, True) for ct in (False, True)]):
         ck.absorb(res)
     ck.exhaustive = True
     ck.extra["product_points"] = len(points)
@@ -318,7 +346,7 @@ def replay_witness(w, ck=None, built=None):
     if "point" in c:
         v, _, _, _ = run_point(built, tuple(c["point"]), c.get("cfgform", "absolute"))
         return bool(v) and v != "c03"
-    r = error_work((built, c["error"].replace("+lock", ""), c["mode"], c.get("with_lock", c["error"].endswith("+lock"))))
+    r = error_work((built, c["error"].replace("+lock", ""), c["mode"], c.get("with_lock", c["error"].endswith("+lock")), c.get("cwd_trap", False)))
     return bool(r["violations"])
 
 
